@@ -637,6 +637,17 @@ def c11(run):
                 f.write(l)
     _iterdsl_programs(run, coll, "C11-collect").execute()
     _iterdsl_programs(run, coll, "C11-collect-release", debug_assertions=False).execute()
+    # ... and every depth-3 chain (two nested flat_map/flatten followed by an adapter that ends the iteration, a rev
+    # before two direction-dependent adapters, ...) with the consumer `collect`
+    dsl3, coll3 = vec("C11-IterDsl-d3.ndjson"), vec("C11-IterDsl-collect3.ndjson")
+    if os.path.exists(dsl3):
+        os.remove(dsl3)
+    run.mc("MC_IterDsl", "IterDsl.d3.cfg", env={"OUT": dsl3}, heap="8g", timeout=3000)
+    with open(coll3, "w") as f:
+        for l in open(dsl3):
+            if json.loads(l)["cons"] == "collect":
+                f.write(l)
+    _iterdsl_programs(run, coll3, "C11-collect-d3").execute()
     run.assumptions += [BOUNDED, "closure exits are generated from a fixed template (exit statement at a chosen "
                         "element); a 3 s timeout stands for non-termination"]
 
@@ -771,7 +782,7 @@ def c19(run):
             ps.add(body, exp, rec)
     for body, exp, rec in go.side_effect_cases():
         ps.add(body, exp, rec)
-    for body, exp, rec in go.try_cases():
+    for body, exp, rec in go.try_cases() + go.drop_cases():
         ps.add(body, exp, rec)
     ps.execute()
     run.assumptions += ["closures / function paths come from a fixed library; the std method is evaluated next to every "
@@ -878,7 +889,30 @@ def _dsl_program(r):
     return "#![allow(warnings)]\npub fn f() { let a = %s; %s }\n" % (src, body)
 
 
+_PM_FWD = {  # kind -> (macro fragment list, pattern written with the fragments, arguments)
+    "fwd_literal": ("$p:literal", "$p", '"a"'), "fwd_expr_lit": ("$p:expr", "$p", '"a"'),
+    "fwd_pat_lit": ("$p:pat", "$p", '"a"'), "fwd_tt_lit": ("$p:tt", "$p", '"a"'),
+    "fwd_lit_alt": ("$p:literal, $r:literal", "$p | $r", '"a", "c"'),
+    "fwd_range": ("$lo:expr, $hi:expr", "$lo..=$hi", '"a", "z"'), "fwd_range_from": ("$lo:expr", "$lo..", '"a"'),
+    "fwd_pat_range": ("$p:pat", "$p", '"a"..="z"'), "fwd_expr_const": ("$p:expr", "$p", "A"),
+}
+
+
+def _pm_fwd_program(r):
+    frag, pat, args = _PM_FWD[r["pat"]]
+    if r["form"] in ("trim_start_matches", "trim_end_matches"):
+        inner = "konst::parser_method!{$q, %s; %s | \"b\"}; 0" % (r["form"], pat)
+    elif r["dflt"]:
+        inner = "konst::parser_method!{$q, %s; %s => 1, \"b\" => 2, _ => 0}" % (r["form"], pat)
+    else:
+        inner = "konst::parser_method!{$q, %s; %s => 1, \"b\" => 2}" % (r["form"], pat)
+    return ("#![allow(warnings)]\nconst A: &str = \"a\";\nmacro_rules! w { ($q:ident, %s) => { { %s } } }\n"
+            "pub fn f(mut p: konst::Parser<'_>) -> u32 { w!(p, %s) }\n" % (frag, inner, args))
+
+
 def _pm_program(r):
+    if r["pat"] in _PM_FWD:
+        return _pm_fwd_program(r)
     pat = {"literal": '"a"', "raw": 'r#"a"#', "concat": 'concat!("a", "c")', "stringify": "stringify!(a)",
            "ident": "A", "expr": '("a")', "range": '"a"..="z"', "range_from": '"a"..', "char": "'a'", "bytes": 'b"a"',
            "int": "5", "path": "K::A", "binding": 'x @ "a"', "ref": '&"a"'}[r["pat"]]
